@@ -994,6 +994,7 @@ func ruleDecompressedLength(r *Report) {
 	const rule = "decompressed-length"
 	r.Rule(rule, 8, "in both RecordIO readers every result of Decompress / DecompressWithBuf is checked against the uncompressed length of the record header (a call of a length check that receives len(result), on every path to a success return)")
 	p := r.P
+	lengthChecked := map[*ssa.Function]bool{}
 	for _, fn := range p.FuncsOfPkg("recordio") {
 		sites := CallsIn(fn, Suffix("CompressionI.Decompress", "CompressionI.DecompressWithBuf"))
 		for _, s := range sites {
@@ -1027,6 +1028,61 @@ func ruleDecompressedLength(r *Report) {
 					}
 				}
 			})
+			// the check itself: it has to fail for a longer result as well as for a shorter one
+			for _, c := range checks {
+				sc := c.Instr.(*ssa.Call).Call.StaticCallee()
+				if lengthChecked[sc] {
+					continue
+				}
+				lengthChecked[sc] = true
+				ckey := rule + "/" + FuncKey(sc) + "/both-directions"
+				r.Saw(sc)
+				lt, gt, ne := false, false, false
+				eachInstr(sc, func(t Site) {
+					bo, ok := t.Instr.(*ssa.BinOp)
+					if !ok {
+						return
+					}
+					unconv := func(v ssa.Value) ssa.Value {
+						for {
+							cv, isCv := v.(*ssa.Convert)
+							if !isCv {
+								return v
+							}
+							v = cv.X
+						}
+					}
+					px, py := paramOrigin(unconv(bo.X)), paramOrigin(unconv(bo.Y))
+					if px == nil || py == nil || px == py || px.Parent() != sc || py.Parent() != sc {
+						return
+					}
+					first := px == sc.Params[0]
+					switch bo.Op {
+					case token.NEQ, token.EQL:
+						ne = true
+					case token.LSS, token.LEQ:
+						if first {
+							lt = true
+						} else {
+							gt = true
+						}
+					case token.GTR, token.GEQ:
+						if first {
+							gt = true
+						} else {
+							lt = true
+						}
+					}
+				})
+				switch {
+				case ne || (lt && gt):
+					r.OK(rule, ckey, sc.Pos(), "the length check fails for any difference")
+				case lt || gt:
+					r.Bad(rule, ckey, sc.Pos(), "the length check is one-sided: a damaged stream that decodes to more (or fewer) bytes than the header says passes — the LZW form of the empty value, 00 03 02, with one bit flipped (00 02 02) decodes to a single zero byte and is served for a key that was written empty")
+				default:
+					r.Unk(rule, ckey, sc.Pos(), "no comparison of the two lengths found in the check")
+				}
+			}
 			var succ []Site
 			for _, nr := range nilReturns(fn) {
 				if reachableFromSite(s, nr) {
